@@ -92,7 +92,7 @@ theorem inv_getitem {s0 : Store α} {o o' : Obj α} {go : GObj} (h : ObjInv s0 o
   · rw [hpd, hn]; exact pshape_addIndex h.pshape
   · rw [hpd]; exact pvals_addIndex s0 h.pvals
   · intro r hr'; exact h.aligned r (hrows r hr')
-  · rw [hrd]; exact rvals_addIndex s0 _ (rvals_pickRows s0 h.rvals hr)
+  · rw [hrd]; exact rvals_addIndex s0 _ (by simp [GObj.pickRows, pick_length]) (rvals_pickRows s0 h.rvals hr)
 
 theorem inv_copy {s0 : Store α} {o o' : Obj α} {go : GObj} (h : ObjInv s0 o go)
     (ho : o.copy = some o') : ObjInv s0 o' go := by
@@ -107,7 +107,7 @@ theorem inv_copy {s0 : Store α} {o o' : Obj α} {go : GObj} (h : ObjInv s0 o go
   · rw [hpd, hn]; exact pshape_addIndex h.pshape
   · rw [hpd]; exact pvals_addIndex s0 h.pvals
   · exact h.aligned
-  · rw [hrd]; exact rvals_addIndex s0 _ h.rvals
+  · rw [hrd]; exact rvals_addIndex s0 _ (by rw [h.vecs]; simp) h.rvals
 
 /-! ### selections of conditions -/
 
@@ -151,7 +151,7 @@ theorem inv_pickConds {s0 : Store α} {o o' : Obj α} {go : GObj} (h : ObjInv s0
   · rw [hn]; exact hps
   · exact pvals_mono s0 (pvals_pick s0 o.pdesc go.pp sel h.pvals) hpd
   · exact aligned_pick go.rows go.pp sel h.aligned
-  · exact rvals_mapRows s0 hrv _ (fun r => rfl)
+  · exact rvals_mapRows s0 hrv _ (fun r => rfl) (fun r => rfl)
 
 theorem mem_addIndex_ne {pd : Desc} {n : Nat} {kv : String × List Lbl} (hkv : kv ∈ pd.addIndex n)
     (hne : kv.1 ≠ "index") : kv ∈ pd := by
@@ -204,7 +204,7 @@ theorem inv_subsetPattern {s0 : Store α} {o o' : Obj α} {go : GObj} (h : ObjIn
   refine inv_pickConds h _ hne hn _ hvecs hF ?_ ?_ ?_
   · intro kv hkv hk; rw [hpd] at hkv; exact mem_addIndex_ne hkv hk
   · rw [hpd]; exact pshape_addIndex hps
-  · rw [hrd]; exact rvals_addIndex s0 _ h.rvals
+  · rw [hrd]; exact rvals_addIndex s0 _ (by rw [h.vecs]; simp) h.rvals
 
 theorem sortNat_mem {l : List Nat} {a : Nat} (h : a ∈ sortNat l) : a ∈ l :=
   (List.mergeSort_perm l _).mem_iff.mp h
@@ -229,7 +229,7 @@ theorem inv_subsamplePattern {s0 : Store α} {o o' : Obj α} {go : GObj} (h : Ob
       r.cp none _ (by rw [hl]; exact hsel) (Or.inl rfl)
   · intro kv hkv hk; rw [hpd] at hkv; exact mem_addIndex_ne hkv hk
   · rw [hpd]; exact pshape_addIndex hps
-  · rw [hrd]; exact rvals_addIndex s0 _ h.rvals
+  · rw [hrd]; exact rvals_addIndex s0 _ (by rw [h.vecs]; simp) h.rvals
 
 /-! ### permutations: `reorder`, `sort_by`, `permute_rdms` -/
 
@@ -340,7 +340,7 @@ theorem inv_permute {s0 : Store α} {o o' : Obj α} {go : GObj} (h : ObjInv s0 o
   obtain ⟨hn, h1, _, hvecs, _, hrd, hpd, _, hps, _⟩ := mk3d_some ho
   have hne : p ≠ [] := by
     intro he; rw [he] at hlen; have := h.ncond; simp at hlen; omega
-  refine inv_pickConds h p hne (by rw [hn, hlen]) _ hvecs ?_ ?_ ?_ (by rw [hrd]; exact rvals_addIndex s0 _ h.rvals)
+  refine inv_pickConds h p hne (by rw [hn, hlen]) _ hvecs ?_ ?_ ?_ (by rw [hrd]; exact rvals_addIndex s0 _ (by rw [h.vecs]; simp) h.rvals)
   · intro r hr
     have hl := h.cpLen r hr
     rw [← hl]
@@ -370,7 +370,7 @@ theorem inv_inversePermute {s0 : Store α} {o o' : Obj α} {go : GObj} (h : ObjI
 
 theorem inv_append {s0 : Store α} {o r o' : Obj α} {go gr : GObj} (h : ObjInv s0 o go)
     (hr : ObjInv s0 r gr) (ho : o.append r = some o') :
-    ObjInv s0 o' (gappend go gr) := by
+    ObjInv s0 o' (gappend o.rdesc.keys go gr) := by
   unfold Obj.append at ho
   split at ho
   swap
@@ -393,7 +393,7 @@ theorem inv_append {s0 : Store α} {o r o' : Obj α} {go gr : GObj} (h : ObjInv 
     simp only [gappend, List.mem_append, List.mem_map] at hx
     rcases hx with hx | ⟨x0, hx0, rfl⟩
     · exact h.cpLen x hx
-    · simp only [GRow.unaligned]; rw [hr.cpLen x0 hx0, hc.1]
+    · simp only [GRow.appended]; rw [hr.cpLen x0 hx0, hc.1]
   · exact h.ppLen
   · exact h.pshape
   · exact h.pvals
@@ -401,8 +401,12 @@ theorem inv_append {s0 : Store α} {o r o' : Obj α} {go gr : GObj} (h : ObjInv 
     simp only [gappend, List.mem_append, List.mem_map] at hx
     rcases hx with hx | ⟨x0, hx0, rfl⟩
     · exact h.aligned x hx hal
-    · simp [GRow.unaligned] at hal
-  · exact rvals_append s0 _ h.rvals hr.rvals
+    · simp [GRow.appended] at hal
+  · have hk : ∀ k ∈ o.rdesc.keys, r.rdesc.has k = true := by
+      simpa [List.all_eq_true] using hc.2
+    have := rvals_append s0 h.rvals hr.rvals hk
+    rw [← nRdm_eq h, ← nRdm_eq hr] at this
+    exact this
 
 /-! ### several objects: `concat`, `from_partials` -/
 
@@ -544,7 +548,7 @@ theorem mergedCol_rcol {s0 : Store α} {key : String} (hne : key ≠ "index") :
   | nil => intro _; exact rcol_nil s0 key
   | @cons o g os gs' hx _ ih =>
     intro hk
-    obtain ⟨col, hc, hlen, hv⟩ := hx.rvals key (hk g List.mem_cons_self) hne
+    obtain ⟨col, hc, hlen, hv⟩ := hx.rvals.1 key (hk g List.mem_cons_self) hne
     have hn : o.nRdm = col.length := by rw [nRdm_eq hx, hlen]
     have hcol : (List.range o.nRdm).map (mergedVal o key) = col := by
       rw [hn]
@@ -586,13 +590,13 @@ theorem mem_mergedNames {o : Obj α} {rest : List (Obj α)} {key : String} (hk :
   exact Or.inl (Or.inl hk)
 
 /-- the tracked keys of a merge: present in the merged table, whole column follows the rows -/
-theorem rvals_merged {s0 : Store α} {objs0 objs : List (Obj α)} {gs : List GObj} {rd0 rdf : Desc}
+theorem rvalsObj_merged {s0 : Store α} {objs0 objs : List (Obj α)} {gs : List GObj} {rd0 rdf : Desc}
     {rows : List GRow}
     (hall : List.Forall₂ (ObjInv s0) objs gs) (hsame : List.Forall₂ SameRows objs objs0)
     (hrd : mergedRDesc objs0 = some rd0)
     (hget : ∀ key c, key ≠ "index" → Desc.get rd0 key = some c → Desc.get rdf key = some c)
     (hsrc : rows.map (·.src) = (gs.flatMap (fun a => a.rows)).map (·.src)) :
-    RVals s0 rdf rows (commonKeys gs) := by
+    RValsObj s0 rdf rows (commonKeys gs) := by
   intro key hk hne
   have hkall := mem_commonKeys_all hk
   cases hall with
@@ -600,7 +604,7 @@ theorem rvals_merged {s0 : Store α} {objs0 objs : List (Obj α)} {gs : List GOb
   | @cons o g os gs' hx hxs =>
     cases hsame with
     | @cons _ o0 _ os0 hs1 hs2 =>
-      obtain ⟨c, hc, _, _⟩ := hx.rvals key (hkall g List.mem_cons_self) hne
+      obtain ⟨c, hc, _, _⟩ := hx.rvals.1 key (hkall g List.mem_cons_self) hne
       have hmem : key ∈ mergedNames (o0 :: os0) := by
         apply mem_mergedNames
         rw [← hs1.2.1]
@@ -610,6 +614,149 @@ theorem rvals_merged {s0 : Store α} {objs0 objs : List (Obj α)} {gs : List GOb
       have hrc := mergedCol_rcol hne (List.Forall₂.cons hx hxs) hkall
       have hrc' := rcol_of_src_eq s0 hsrc hrc
       exact ⟨_, hget key _ hne hg0, hrc'.1, hrc'.2⟩
+
+
+/-! ### merged rdm descriptors, row level: every row keeps every key it tracks -/
+
+/-- one column against a list of rows: for every row that tracks `key`, the initial value -/
+def RColRow (s0 : Store α) (key : String) (col : List Lbl) (rows : List GRow) : Prop :=
+  col.length = rows.length ∧
+    ∀ (q : Nat) (r : GRow), rows[q]? = some r → key ∈ r.rk → ∃ v, col[q]? = some v ∧ RVal s0 r.src key v
+
+theorem rcolRow_append (s0 : Store α) {key : String} {c1 c2 : List Lbl} {r1 r2 : List GRow}
+    (h1 : RColRow s0 key c1 r1) (h2 : RColRow s0 key c2 r2) : RColRow s0 key (c1 ++ c2) (r1 ++ r2) := by
+  refine ⟨by simp [h1.1, h2.1], ?_⟩
+  intro q r hr hk
+  by_cases hq : q < r1.length
+  · rw [List.getElem?_append_left hq] at hr
+    obtain ⟨v, hv1, hv2⟩ := h1.2 q r hr hk
+    exact ⟨v, by rw [List.getElem?_append_left (by rw [h1.1]; exact hq)]; exact hv1, hv2⟩
+  · rw [List.getElem?_append_right (by omega)] at hr
+    obtain ⟨v, hv1, hv2⟩ := h2.2 _ r hr hk
+    exact ⟨v, by rw [List.getElem?_append_right (by rw [h1.1]; omega), h1.1]; exact hv1, hv2⟩
+
+theorem mergedCol_rcolRow {s0 : Store α} {key : String} (hne : key ≠ "index") :
+    ∀ {objs : List (Obj α)} {gs : List GObj}, List.Forall₂ (ObjInv s0) objs gs →
+      RColRow s0 key (mergedCol objs key) (gs.flatMap (fun a => a.rows)) := by
+  intro objs gs hall
+  induction hall with
+  | nil => exact ⟨rfl, by intro q r hr; simp at hr⟩
+  | @cons o g os gs' hx _ ih =>
+    simp only [mergedCol, List.flatMap_cons]
+    refine rcolRow_append s0 ⟨by simp [nRdm_eq hx], ?_⟩ ih
+    intro q r hr hk
+    obtain ⟨col, v, hc, hv1, hv2⟩ := hx.rvals.2.2 q r hr key hk hne
+    have hq : q < o.nRdm := by
+      rw [nRdm_eq hx]
+      by_contra hcon
+      rw [List.getElem?_eq_none (by omega)] at hr
+      simp at hr
+    refine ⟨v, ?_, hv2⟩
+    rw [List.getElem?_map, List.getElem?_range hq]
+    simp only [Option.map_some, Option.some.injEq, mergedVal, hc]
+    exact getD_eq_of_getElem? hv1
+
+theorem mem_mergedNames_of_mem {objs : List (Obj α)} {o : Obj α} (ho : o ∈ objs) {key : String}
+    (hk : key ∈ o.rdesc.keys) : key ∈ mergedNames objs := by
+  simp only [mergedNames, dedupStr]
+  rw [mem_uniq]
+  simp only [List.mem_append, List.mem_flatMap]
+  exact Or.inl ⟨o, ho, hk⟩
+
+theorem mergedCol_length (objs : List (Obj α)) (key : String) :
+    (mergedCol objs key).length = (objs.map (·.nRdm)).sum := by
+  induction objs with
+  | nil => rfl
+  | cons o os ih =>
+    simp only [mergedCol, List.flatMap_cons, List.length_append, List.length_map, List.length_range,
+      List.map_cons, List.sum_cons] at ih ⊢
+    rw [ih]
+
+theorem mergedRDesc_shape {objs : List (Obj α)} {rd : Desc} (h : mergedRDesc objs = some rd) :
+    ∀ kv ∈ rd, kv.2.length = (objs.map (·.nRdm)).sum := by
+  simp only [mergedRDesc, Option.some.injEq] at h
+  subst h
+  intro kv hkv
+  simp only [List.mem_map] at hkv
+  obtain ⟨name, _, rfl⟩ := hkv
+  by_cases hn : name = "index"
+  · simp [hn, rangeLbl_length]
+  · simp [hn, mergedCol_length]
+
+theorem rows_length_sum {s0 : Store α} :
+    ∀ {objs : List (Obj α)} {gs : List GObj}, List.Forall₂ (ObjInv s0) objs gs →
+      (gs.flatMap (fun a => a.rows)).length = (objs.map (·.nRdm)).sum := by
+  intro objs gs hall
+  induction hall with
+  | nil => rfl
+  | cons hx _ ih => simp [List.flatMap_cons, ih, nRdm_eq hx]
+
+theorem nRdm_sum_congr :
+    ∀ {as rs : List (Obj α)}, List.Forall₂ SameRows as rs →
+      (as.map (·.nRdm)).sum = (rs.map (·.nRdm)).sum := by
+  intro as rs h
+  induction h with
+  | nil => rfl
+  | cons hx _ ih => simp [ih, hx.2.2.2]
+
+/-- after a merge every row still tracks, and holds the initial value of, every key it tracked -/
+theorem rowVals_merged {s0 : Store α} {objs0 objs : List (Obj α)} {gs : List GObj} {rd0 rdf : Desc}
+    {rows : List GRow}
+    (hall : List.Forall₂ (ObjInv s0) objs gs) (hsame : List.Forall₂ SameRows objs objs0)
+    (hrd : mergedRDesc objs0 = some rd0)
+    (hget : ∀ key c, key ≠ "index" → Desc.get rd0 key = some c → Desc.get rdf key = some c)
+    (hmem : ∀ kv ∈ rdf, kv ∈ rd0 ∨ kv.2.length = rows.length)
+    (hsrc : rows.map (fun r => (r.src, r.rk)) = (gs.flatMap (fun a => a.rows)).map (fun r => (r.src, r.rk))) :
+    RowVals s0 rdf rows := by
+  have hlen : rows.length = (gs.flatMap (fun a => a.rows)).length := by
+    simpa using congrArg List.length hsrc
+  refine ⟨?_, ?_⟩
+  · intro kv hkv
+    rcases hmem kv hkv with h0 | h0
+    · rw [mergedRDesc_shape hrd kv h0, hlen, rows_length_sum hall, nRdm_sum_congr hsame]
+    · exact h0
+  · intro q r hr key hk hne
+    have hq : q < (gs.flatMap (fun a => a.rows)).length := by
+      rw [← hlen]
+      by_contra hcon
+      rw [List.getElem?_eq_none (by omega)] at hr
+      simp at hr
+    have hs : (rows.map (fun r => (r.src, r.rk)))[q]?
+        = ((gs.flatMap (fun a => a.rows)).map (fun r => (r.src, r.rk)))[q]? := by rw [hsrc]
+    rw [List.getElem?_map, List.getElem?_map, hr, List.getElem?_eq_getElem hq] at hs
+    simp only [Option.map_some, Option.some.injEq, Prod.mk.injEq] at hs
+    obtain ⟨hs1, hs2⟩ := hs
+    set r' := (gs.flatMap (fun a => a.rows))[q] with hr'
+    have hk' : key ∈ r'.rk := by rw [← hs2]; exact hk
+    -- the object that row belongs to has the key
+    have hmemr : r' ∈ gs.flatMap (fun a => a.rows) := List.getElem_mem hq
+    simp only [List.mem_flatMap] at hmemr
+    obtain ⟨g, hg, hrg⟩ := hmemr
+    obtain ⟨o, ho, hinv⟩ := forall₂_mem_right hall hg
+    obtain ⟨q', hq', hq''⟩ := List.getElem_of_mem hrg
+    obtain ⟨col, _, hc, _, _⟩ := hinv.rvals.2.2 q' r' (by rw [List.getElem?_eq_getElem hq', hq'']) key hk' hne
+    obtain ⟨o0, ho0, hso⟩ := forall₂_mem_left hsame ho
+    have hnames : key ∈ mergedNames objs0 := by
+      apply mem_mergedNames_of_mem ho0
+      rw [← hso.2.1]
+      exact Desc.mem_keys_of_get hc
+    have hg0 := mergedRDesc_get hrd hne hnames
+    rw [← mergedCol_congr hsame] at hg0
+    obtain ⟨v, hv1, hv2⟩ := (mergedCol_rcolRow hne hall).2 q r' (List.getElem?_eq_getElem hq) hk'
+    exact ⟨_, v, hget key _ hne hg0, hv1, by rw [hs1]; exact hv2⟩
+
+/-- both levels -/
+theorem rvals_merged {s0 : Store α} {objs0 objs : List (Obj α)} {gs : List GObj} {rd0 rdf : Desc}
+    {rows : List GRow}
+    (hall : List.Forall₂ (ObjInv s0) objs gs) (hsame : List.Forall₂ SameRows objs objs0)
+    (hrd : mergedRDesc objs0 = some rd0)
+    (hget : ∀ key c, key ≠ "index" → Desc.get rd0 key = some c → Desc.get rdf key = some c)
+    (hmem : ∀ kv ∈ rdf, kv ∈ rd0 ∨ kv.2.length = rows.length)
+    (hsrc : rows.map (fun r => (r.src, r.rk)) = (gs.flatMap (fun a => a.rows)).map (fun r => (r.src, r.rk))) :
+    RVals s0 rdf rows (commonKeys gs) := by
+  refine ⟨rvalsObj_merged hall hsame hrd hget ?_, rowVals_merged hall hsame hrd hget hmem hsrc⟩
+  have := congrArg (List.map Prod.fst) hsrc
+  simpa [List.map_map, Function.comp_def] using this
 
 theorem flatMap_vecs_render {s0 : Store α} :
     ∀ {objs : List (Obj α)} {gs : List GObj}, List.Forall₂ (ObjInv s0) objs gs →
@@ -663,14 +810,26 @@ theorem inv_concatResult {s0 : Store α} {first res : Obj α} {gfirst : GObj} (h
     rcases hr with hr | ⟨ga, hga, r0, hr0, rfl⟩
     · exact hf.aligned r hr hal
     · simp [GRow.unaligned] at hal
-  · rw [hrdres, hrdeq]
+  · have hvr : (first.vecs ++ aligned.flatMap (fun x => x.vecs)).length
+        = (gconcat gfirst galigned).rows.length := by
+      rw [gconcat]
+      simp only [List.length_append]
+      rw [flatMap_vecs_render ha, hf.vecs]
+      simp
+    rw [hrdres, hrdeq]
     refine rvals_merged (List.Forall₂.cons hf ha)
-      (List.Forall₂.cons ⟨rfl, rfl, rfl, rfl⟩ hsame) hrd0 ?_ ?_
+      (List.Forall₂.cons ⟨rfl, rfl, rfl, rfl⟩ hsame) hrd0 ?_ ?_ ?_
     · intro key c hne hc
       apply Desc.get_addIndex_of_some
       apply Desc.get_append_of_some
       rw [Desc.get_filter_key (fun k => k != "index") rd0 key (by simpa using hne)]
       exact hc
+    · intro kv hkv
+      rcases Desc.mem_addIndex hkv with h1 | rfl
+      · left
+        simp only [List.mem_append, List.mem_filter] at h1
+        rcases h1 with h1 | h1 <;> exact h1.1
+      · right; rw [rangeLbl_length, hvr]
     · simp [gconcat, List.map_flatMap, GRow.unaligned, Function.comp_def]
 
 theorem forall₂_of_mapM_opt {β γ : Type} (f : β → Option γ) :
@@ -726,7 +885,8 @@ theorem flatMap_scatter_render {s0 : Store α} {bigN : Nat} {all : List Lbl} {d 
 
 theorem gfromPartials_src (gs : List GObj) (labs : List (List Lbl)) (all : List Lbl)
     (hlen : gs.length = labs.length) :
-    (gfromPartials gs labs all).rows.map (·.src) = (gs.flatMap (fun a => a.rows)).map (·.src) := by
+    (gfromPartials gs labs all).rows.map (fun r => (r.src, r.rk))
+      = (gs.flatMap (fun a => a.rows)).map (fun r => (r.src, r.rk)) := by
   simp only [gfromPartials]
   induction gs generalizing labs with
   | nil => simp
@@ -805,10 +965,18 @@ theorem inv_fromPartials {s0 : Store α} {objs : List (Obj α)} {gs : List GObj}
         simp only [gfromPartials, List.mem_flatMap, List.mem_map] at hr
         obtain ⟨gl, _, r0, _, rfl⟩ := hr
         simp at hal
-      · rw [hrdres]
-        refine rvals_merged hall (List.forall₂_same.mpr (fun _ _ => ⟨rfl, rfl, rfl, rfl⟩)) hrd ?_ ?_
+      · have hvr : ((objs.zip labs).flatMap (fun ol =>
+            ol.1.vecs.map (scatterVec ol.1.nCond all.length (ol.2.map (fun x => all.idxOf x))))).length
+            = (gfromPartials gs labs all).rows.length := by
+          rw [hvecs0]; simp [gfromPartials]
+        rw [hrdres]
+        refine rvals_merged hall (List.forall₂_same.mpr (fun _ _ => ⟨rfl, rfl, rfl, rfl⟩)) hrd ?_ ?_ ?_
         · intro key c _ hc
           exact Desc.get_addIndex_of_some _ _ _ _ hc
+        · intro kv hkv
+          rcases Desc.mem_addIndex hkv with h1 | rfl
+          · exact Or.inl h1
+          · right; rw [rangeLbl_length, hvr]
         · exact gfromPartials_src gs labs all (by rw [← hall.length_eq, hf2.length_eq])
 
 end Rsa.Rdm
